@@ -316,6 +316,9 @@ Fixpoint writes (n : nat) (sched : list step) : nmap :=
 Definition is_commit (x : step) : bool := match x with Commit _ _ _ => true | _ => false end.
 Definition no_commit (q : list step) : bool := forallb (fun x => negb (is_commit x)) q.
 
+Definition is_push (x : step) : bool := match x with PushRef _ => true | _ => false end.
+Definition no_push (q : list step) : bool := forallb (fun x => negb (is_push x)) q.
+
 (* the block b occurs in q without interleaving *)
 Definition has_block (b q : list step) : Prop := exists x y, q = x ++ b ++ y.
 
